@@ -316,12 +316,14 @@ Definition try_find_full_name (a name : bytes) : outcome (option pref) find_err 
 
 Definition is_pseudo_ref (n : bytes) : bool := forallb is_upper_or_us n.
 
-Definition looks_like_full_name (n : bytes) : bool :=
+(* PartialNameRef::looks_like_full_name(consider_pseudo_ref) *)
+Definition looks_like_full_name (consider_pseudo_ref : bool) (n : bytes) : bool :=
   starts_with n (bs "refs/") || starts_with n (bs "main-worktree/")
-  || starts_with n (bs "worktrees/") || is_pseudo_ref n.
+  || starts_with n (bs "worktrees/") || (consider_pseudo_ref && is_pseudo_ref n).
 
-Definition construct_full_name (n inbetween : bytes) : bytes :=
-  (if looks_like_full_name n then [] else bs "refs/")
+(* construct_full_name_ref(inbetween, buf, consider_pseudo_ref) *)
+Definition construct_full_name (consider_pseudo_ref : bool) (n inbetween : bytes) : bytes :=
+  (if looks_like_full_name consider_pseudo_ref n then [] else bs "refs/")
   ++ (match inbetween with [] => [] | _ => inbetween ++ [SLASH] end) ++ n.
 
 Fixpoint find_byte_pos (c : byte) (l : bytes) : option nat :=
@@ -364,13 +366,13 @@ Fixpoint try_find_loop (a name : bytes) (inbetweens : list bytes) : outcome (opt
   match inbetweens with
   | [] => Ok None
   | ib :: rest =>
-      if looks_like_full_name name then
+      if looks_like_full_name false name then                (* packed try_find passes `false` *)
         match transform_full_name_for_lookup name with
         | None => Ok None
         | Some n => try_find_full_name a n
         end
       else
-        match try_find_full_name a (construct_full_name name ib) with
+        match try_find_full_name a (construct_full_name false name ib) with
         | Ok None => try_find_loop a name rest
         | r => r
         end
